@@ -76,9 +76,10 @@ func startDNS(t *testing.T) func() {
 }
 
 type dialRec struct {
-	mu    sync.Mutex
-	addrs []string
-	tr    *Tracer // non-nil: log every dial as it happens (concurrent runs)
+	mu        sync.Mutex
+	addrs     []string
+	tr        *Tracer // non-nil: log every dial as it happens (concurrent runs)
+	blackhole string  // dials to this address hang until their context ends
 }
 
 func (d *dialRec) dial(ctx context.Context, network, addr string) (net.Conn, error) {
@@ -87,7 +88,12 @@ func (d *dialRec) dial(ctx context.Context, network, addr string) (net.Conn, err
 	if d.tr != nil {
 		d.tr.Emit("Dial", KV{"addr": addr})
 	}
+	hole := d.blackhole != "" && addr == d.blackhole
 	d.mu.Unlock()
+	if hole { // a peer that never answers: the dial ends when its context does
+		<-ctx.Done()
+		return nil, ctx.Err()
+	}
 	return nil, errors.New("recorded, not connected")
 }
 
@@ -335,6 +341,25 @@ func TestDrv_C18(t *testing.T) {
 		tr.Emit("Reset", KV{"mode": "dns", "sequential": true, "resolved": []KV{{"addr": "10.66.0.2:8080", "fam": 4}, {"addr": "10.66.0.3:8080", "fam": 4}}, "mapped": []string{},
 			"passthru": false, "half": 0, "host": "shifting.test", "target": "shifting.test:8080", "phase": "answer changed, 30 ttls idle"})
 		tr.Emit("Attempt", KV{"k": 1, "dialed": second})
+	}
+	// a replacement that never answers, on a transport whose dials end with the request (h2c + Timeout): the abandoned dial has
+	// had its turn, the rotation goes on
+	{
+		repl := []string{"10.6.1.1:7001", "10.6.1.2:7002", "10.6.1.3:7003"}
+		rec := &dialRec{blackhole: repl[1]}
+		runs++
+		tr.Emit("Reset", KV{"mode": "connect", "sequential": true, "resolved": []KV{}, "mapped": repl, "passthru": false, "half": 0, "target": "hole.test:80",
+			"composition": "ConnectTo, H2C, Timeout(30ms); the second replacement is a black hole"})
+		atk := vegeta.NewAttacker(vegeta.Client(&http.Client{Transport: &http.Transport{DialContext: rec.dial, DisableKeepAlives: true}}),
+			vegeta.ConnectTo(map[string][]string{"hole.test:80": repl}), vegeta.H2C(true), vegeta.Timeout(30*time.Millisecond), vegeta.Workers(1), vegeta.MaxWorkers(1))
+		pacer := &countPacer{n: 12, gate: make(chan struct{}, 1)}
+		k := 0
+		for range atk.Attack(vegeta.NewStaticTargeter(vegeta.Target{Method: "GET", URL: "http://hole.test:80/"}), pacer, 0, "c18") {
+			k++
+			tr.Emit("Attempt", KV{"k": k, "dialed": rec.take()})
+			pacer.gate <- struct{}{}
+		}
+		tr.Emit("End", nil)
 	}
 	// one ConnectTo option value given to two attackers that take turns: each rotates over the replacements on its own
 	{
